@@ -8,6 +8,7 @@ use crate::time_sync::TimeSync;
 use crate::{
     Config, DesyncDetection, Frame, GgrsError, NonBlockingSocket, PlayerHandle, NULL_FRAME,
 };
+use bincode::Options;
 use tracing::{trace, warn};
 
 #[cfg(not(feature = "verif-hooks"))]
@@ -125,7 +126,12 @@ impl InputBytes {
             let start = p * size;
             let end = start + size;
             let player_byte_slice = &self.bytes[start..end];
-            let input: T::Input = bincode::deserialize(player_byte_slice)
+            // same encoding as `bincode::serialize`, but the slice has to be consumed entirely: a
+            // frame of the wrong size must not pass just because its length divides evenly
+            let input: T::Input = bincode::options()
+                .with_fixint_encoding()
+                .reject_trailing_bytes()
+                .deserialize(player_byte_slice)
                 .map_err(|e| format!("failed to deserialize input for player {p}: {e}"))?;
             player_inputs.push(PlayerInput::new(self.frame, input));
         }
